@@ -1,4 +1,5 @@
 import LabtechModel.Proofs.Ready
+import LabtechModel.Proofs.InvMain
 /-!
 # C02 — A task never starts before all of its dependencies have finished
 
@@ -10,8 +11,19 @@ Proved here (all problems, configurations, cache pre-states, schedules):
 * inside `run()` a dependency is read by its own identity from the results visible to the worker:
   a missing entry (failed or died dependency) is a raise, never a default or another task's value
   (`read_is_own_or_raises`).
-The full trace statement (`start t` is preceded by `yield d` for every dependency) additionally
-needs the invariant `pendDeps t = unfinished direct dependencies of t`; see DESIGN.md section 7.
+Whole runs (every problem, configuration, cache pre-state, fuel and schedule; no hypothesis needed;
+from the master invariant `Reach` of `Proofs/InvLoop.lean`):
+* `start_after_deps` / `start_after_deps_loophead`: in the trace of a run (and of every loop-head
+  state) every `submit t`, `start t` and `exec t` is preceded by a `yield d` of every recorded direct
+  dependency `d` of `t`;
+* `ddeps_complete`: the recorded direct dependencies of `t` contain the tid of every task object
+  found in the parameters of every planned object of `t`, unless `t` is served from cache;
+* `dep_result_visible`: when `run()` of `t` is executed, what it reads comes from a snapshot in
+  which every direct dependency `d` has the value `v` iff `d` was yielded with `ok v` before — so a
+  dependency that failed or died has *no* entry and the read raises (`read_is_own_or_raises`);
+  `dep_read_value` spells this out per parameter object.
+Not covered: that `exec t` comes after `start t` of the same task (not recorded in the trace
+predicate), and nested containers (the model's `children` is already the flattened list).
 -/
 namespace Lt.Props.C02
 open Lt
@@ -135,5 +147,83 @@ def exCfg : Config := { backend := .spawn, maxWorkers := 4, contOnFail := true, 
 example : readyTasks exP (plan exCfg exP [] 3) = [0] ∧ (plan exCfg exP [] 3).pendDeps 1 = [0] ∧
     (run exCfg exP [] 3 [⟨fun _ => true⟩, ⟨fun _ => true⟩, ⟨fun _ => true⟩]).status = .returned [(1, 1)] := by
   decide
+
+/-! ## whole runs -/
+
+/-- in every loop-head trace a task is submitted, started and executed only after every one of
+    its recorded direct dependencies has been yielded (finished, failed or died) -/
+theorem start_after_deps_loophead (cfg : Config) (p : Problem) (store : Store) (fuel : Nat) (sched : List Choice)
+    (pre post : List Ev) (e : Ev) (t : Tid)
+    (he : (∃ uc, e = Ev.submit t uc) ∨ e = Ev.start t ∨ (∃ seen, e = Ev.exec t seen))
+    (h : (runLoop cfg p (reqTids p) sched (initRS cfg p store fuel)).trace = pre ++ e :: post) :
+    ∀ d ∈ (plan cfg p store fuel).ddeps t, ∃ o, Ev.yield d o ∈ pre :=
+  loopHead_after_deps cfg p store fuel sched pre post e t he h
+
+/-- the same for the trace of a whole run -/
+theorem start_after_deps (cfg : Config) (p : Problem) (store : Store) (fuel : Nat) (sched : List Choice)
+    (pre post : List Ev) (e : Ev) (t : Tid)
+    (he : (∃ uc, e = Ev.submit t uc) ∨ e = Ev.start t ∨ (∃ seen, e = Ev.exec t seen))
+    (h : (run cfg p store fuel sched).trace = pre ++ e :: post) :
+    ∀ d ∈ (plan cfg p store fuel).ddeps t, ∃ o, Ev.yield d o ∈ pre := by
+  rw [run_trace] at h
+  exact loopHead_after_deps cfg p store fuel sched pre post e t he h
+
+/-- the recorded direct dependencies are complete: every task object in the parameters of a planned,
+    not-cached object of `t` is one -/
+theorem ddeps_complete (cfg : Config) (p : Problem) (store : Store) (fuel : Nat) (t : Tid) (i : Iid)
+    (hi : i ∈ (plan cfg p store fuel).instances t) (hc : useCache cfg p store t = false) :
+    ∀ c ∈ p.children i, p.tidOf c ∈ (plan cfg p store fuel).ddeps t :=
+  plan_ddeps_complete cfg p store fuel t i hi hc
+
+/-- when `run()` of `t` executes, its reads come from a snapshot that holds for each direct dependency
+    exactly the value it was yielded with (none if it failed or died) -/
+theorem dep_result_visible (cfg : Config) (p : Problem) (store : Store) (fuel : Nat) (sched : List Choice)
+    (pre post : List Ev) (t : Tid) (seen : List (Option Val))
+    (h : (run cfg p store fuel sched).trace = pre ++ Ev.exec t seen :: post) :
+    ∃ snap, seen = reads p (repr0 (plan cfg p store fuel) t) snap ∧
+      ∀ d ∈ (plan cfg p store fuel).ddeps t,
+        (∃ o, Ev.yield d o ∈ pre) ∧ ∀ v, (lookup d snap = some v ↔ Ev.yield d (.ok v) ∈ pre) := by
+  rw [run_trace] at h
+  obtain ⟨snap, hs, hv⟩ := loopHead_exec_snapshot cfg p store fuel sched pre post t seen h
+  refine ⟨snap, hs, fun d hd => ⟨?_, hv d hd⟩⟩
+  exact loopHead_after_deps cfg p store fuel sched pre post _ t (Or.inr (Or.inr ⟨seen, rfl⟩)) h d hd
+
+/-- per parameter object: the value `run()` of a planned, executed task reads for the task object `c`
+    in its parameters is the value `tidOf c` was yielded with in this run, and a raise (`none`) if
+    that dependency failed or died -/
+theorem dep_read_value (cfg : Config) (p : Problem) (store : Store) (fuel : Nat) (sched : List Choice)
+    (pre post : List Ev) (t : Tid) (seen : List (Option Val))
+    (h : (run cfg p store fuel sched).trace = pre ++ Ev.exec t seen :: post)
+    (ht : t ∈ (plan cfg p store fuel).pending) (hc : useCache cfg p store t = false) :
+    ∃ rd : Iid → Option Val, seen = (p.children (repr0 (plan cfg p store fuel) t)).map rd ∧
+      ∀ c ∈ p.children (repr0 (plan cfg p store fuel) t),
+        (∃ o, Ev.yield (p.tidOf c) o ∈ pre) ∧
+        ∀ v, (rd c = some v ↔ Ev.yield (p.tidOf c) (.ok v) ∈ pre) := by
+  obtain ⟨snap, hs, hv⟩ := dep_result_visible cfg p store fuel sched pre post t seen h
+  refine ⟨fun c => lookup (p.tidOf c) snap, hs, ?_⟩
+  intro c hcm
+  have hinst : repr0 (plan cfg p store fuel) t ∈ (plan cfg p store fuel).instances t := by
+    have hne := plan_pending_instances cfg p store fuel t ht
+    simp only [repr0]
+    cases hl : (plan cfg p store fuel).instances t with
+    | nil => exact absurd hl hne
+    | cons a b => simp
+  exact hv _ (plan_ddeps_complete cfg p store fuel t _ hinst hc c hcm)
+
+/-- non-vacuity: in a concrete run task 3 (dependencies 1 and 2) is started after both were yielded,
+    and its `run()` reads exactly their values -/
+example :
+    let tr := (run invExCfg invExP [] 4 (List.replicate 5 chooseAll)).trace
+    tr = tr.take 18 ++ Ev.start 3 :: tr.drop 19 ∧
+    tr = tr.take 20 ++ Ev.exec 3 [some 1000, some 2000] :: tr.drop 21 ∧
+    (plan invExCfg invExP [] 4).ddeps 3 = [1, 2] ∧
+    Ev.yield 1 (.ok 1000) ∈ tr.take 18 ∧ Ev.yield 2 (.ok 2000) ∈ tr.take 18 := by decide
+
+/-- non-vacuity with a failing dependency: 1 raises, 3 still runs after both dependencies were
+    yielded and reads a raise for 1 -/
+example :
+    let pr : Problem := { invExP with fails := fun t => t == 1 }
+    let tr := (run { invExCfg with backend := .spawn } pr [] 4 (List.replicate 5 chooseAll)).trace
+    Ev.yield 1 .exc ∈ tr ∧ Ev.exec 3 [none, some 2000] ∈ tr := by decide
 
 end Lt.Props.C02
